@@ -116,7 +116,10 @@ Definition delta0 : delta := mkDelta [] [] [].
 
 (* start of a mutation cycle: physically erase what was removed in the previous one *)
 Definition store_begin (st : store) : store :=
-  mkStore (st_cap st) (fold_left (fun fr s => s :: fr) (st_pend st) (st_free st)) [] (st_ent st) true.
+  mkStore (st_cap st) (fold_left (fun fr s => s :: fr) (st_pend st) (st_free st)) [] (st_ent st) (st_valid st).
+
+Definition store_validate (st : store) : store :=
+  mkStore (st_cap st) (st_free st) (st_pend st) (st_ent st) true.
 
 Definition store_remove (k : Z) (sd : store * delta) : store * delta :=
   let (st, d) := sd in
@@ -650,8 +653,12 @@ Definition run_cycle (cf : cfg) (w : wire) (acc : store * rstate * wire) (c : na
       else
         match sets, rems, touch_of cz w with
         | [], [], false => (st, delta0, false)
-        | _, _, _ => let (st', d) := store_apply_dict rems sets st in
-                     (st', d, negb (st_valid st) || delta_nonempty d)
+        | _, _, _ =>
+            (* an empty delta ticks (and validates) a dictionary that has never ticked; a delta that
+               only removes absent keys does not tick at all (observed behaviour of apply_delta_tsd) *)
+            let (st', d) := store_apply_dict rems sets st in
+            let ev := delta_nonempty d || (negb (st_valid st) && match rems with [] => true | _ => false end) in
+            if ev then (store_validate st', d, true) else (st', delta0, false)
         end in
   let zero_event := c_has_zero cf && (c =? 0)%nat in
   let o := reduce_cycle Z.add cf st' d coll_event zero_event s in
